@@ -104,6 +104,11 @@ func (f *Dotimes) Call(s *slip.Scope, args slip.List, depth int) slip.Object {
 							break
 						}
 					}
+					if len(args) <= i {
+						// Not a tag of this body, it is for an outer
+						// tagbody.
+						return tr
+					}
 				}
 			}
 		}
